@@ -224,7 +224,7 @@ class EphysAlfCreator(object):
         assert cluster_channels.ndim == 1
         n_clusters = cluster_channels.shape[0]
 
-        clusters_depths = channel_positions[cluster_channels, 1]
+        clusters_depths = channel_positions[cluster_channels, 1].astype(np.float64)
         clusters_depths[self.model.nan_idx] = np.nan
         assert clusters_depths.shape == (n_clusters,)
 
@@ -262,7 +262,8 @@ class EphysAlfCreator(object):
                 current_probe = self.model.channel_probes[self.model.templates_channels[t]]
                 channel_distance = np.sum(np.abs(
                     self.model.channel_positions -
-                    self.model.channel_positions[self.model.templates_channels[t]]), axis=1)
+                    self.model.channel_positions[self.model.templates_channels[t]]),
+                    axis=1).astype(np.float64)
                 channel_distance[self.model.channel_probes != current_probe] += np.inf
                 templates_inds[t, :] = np.argsort(channel_distance)[:ncw]
                 templates[t, ...] = templates_v[t, :][:, templates_inds[t, :]]
@@ -284,7 +285,7 @@ class EphysAlfCreator(object):
                 current_probe = self.model.channel_probes[channels[t]]
                 channel_distance = np.sum(np.abs(
                     self.model.channel_positions -
-                    self.model.channel_positions[channels[t]]), axis=1)
+                    self.model.channel_positions[channels[t]]), axis=1).astype(np.float64)
                 channel_distance[self.model.channel_probes != current_probe] += np.inf
                 templates_inds[t, :] = np.argsort(channel_distance)[:ncw]
                 templates[t, ...] = clusters_v[t, :][:, templates_inds[t, :]]
